@@ -9,7 +9,10 @@ Line protocol of the C20 model (one s-expression in, one out).
   STATE = ((x n) ...)          variables not listed are 0
   STR   = atom, percent-encoded as in harness/common/sexp.py
 
-  (vcs COM PRE POST)        -> (ok ACOM (E ...) (STR ...))   annotated command, VCs, printed VCs
+  (vcs COM PRE POST)        -> (ok ACOM (E ...) (STR ...) (wsCom wfCpre wfCpost allVCswfC))   annotated command, VCs, printed VCs, hypotheses of the theorems
+  (vcsh COM PRE POST)       -> (E ...)                        conditions of imp.vcg (no `== true` shortcut)
+  (wf E)                    -> (wfC wfA tyC tyA)              each T | F
+  (ws COM)                  -> T | F                          wsCom
   (pp E)                    -> STR
   (lexpp E)                 -> T | F        does `lex (pp E)` equal `toks E`
   (ppcom COM)               -> (STR ...)                      lines of print_com
@@ -132,8 +135,21 @@ def handle (line : String) : String :=
     | some c, some p, some q =>
       let a := computeWp c [p] q
       let vcs := getVcs a
-      toString (Sexp.list [.atom "ok", acomTo a, exprsTo vcs, .list (vcs.map fun v => .atom (enc (pp v)))])
+      toString (Sexp.list [.atom "ok", acomTo a, exprsTo vcs, .list (vcs.map fun v => .atom (enc (pp v))),
+        .list [Sexp.ofBool (wsCom c), Sexp.ofBool (wfC p), Sexp.ofBool (wfC q), Sexp.ofBool (vcs.all wfC)]])
     | _, _, _ => "bad-op"
+  | some (.list [.atom "vcsh", c, p, q]) =>
+    match comOf c, exprOf p, exprOf q with
+    | some c, some p, some q => toString (exprsTo (vcsH p c q))
+    | _, _, _ => "bad-op"
+  | some (.list [.atom "wf", e]) =>
+    match exprOf e with
+    | some e => toString (Sexp.list [Sexp.ofBool (wfC e), Sexp.ofBool (wfA e), Sexp.ofBool (tyC e), Sexp.ofBool (tyA e)])
+    | none => "bad-op"
+  | some (.list [.atom "ws", c]) =>
+    match comOf c with
+    | some c => toString (Sexp.ofBool (wsCom c))
+    | none => "bad-op"
   | some (.list [.atom "pp", e]) =>
     match exprOf e with
     | some e => enc (pp e)
